@@ -750,8 +750,8 @@ def c11(tier):
 
 KA_CFG = """SPECIFICATION Spec
 CONSTANTS
- Gaps = {1, 2, 4}
- LongGaps = {13}
+ Gaps = {2, 4, 5, 9}
+ LongGaps = {26}
  MaxSends = %d
  Kinds = {"ping", "pub"}
 INVARIANTS SilentDropped WillIffExpired Emit
@@ -769,13 +769,15 @@ def c19(tier):
     scheds = core.behaviours(r.lines)
     rng = random.Random(core.seed())
     # always: silent from the start, silent after traffic, pinging at 0.4 K and 0.8 K, publishes only
-    fixed = [s for s in scheds if len(s) == 1 or all(x["gap"] in (2, 13) for x in s) or all(x["gap"] in (4, 13) for x in s)]
+    # always: silent from the start, regular pinging, and every (short gap, long gap) pair (an irregular
+    # client: the deadline must be re-armed by EVERY packet); plus a seeded sample of the rest
+    fixed = [s for s in scheds if len(s) <= 3]
     rest = [s for s in scheds if s not in fixed]
     rng.shuffle(rest)
-    chosen = fixed[:14] + rest[:(10 if not thorough else 130)]
+    chosen = fixed + rest[:(16 if not thorough else 200)]
     runs = [(1, chosen)] + ([(2, chosen[:40])] if thorough else [])
     for k, ss in runs:
-        p = core.run_harness(["keepalive", "-k", str(k), "-lanes", "24" if not thorough else "48"], stdin_obj=ss, timeout=900)
+        p = core.run_harness(["keepalive", "-k", str(k), "-lanes", "48" if not thorough else "64"], stdin_obj=ss, timeout=900)
         if p.returncode != 0:
             raise Infra("keepalive failed: %s" % p.stderr[-2000:])
         res = json.loads(p.stdout.strip().splitlines()[-1])
@@ -788,11 +790,11 @@ def c19(tier):
         v.cov["distinct_nontrivial"] += res.get("evaluations", 0)
         v.mismatches(res.get("mismatches"), res.get("counts"))
         v.add_samples(res.get("samples") or [], 2)
-    v.cov["rule"] = ("client schedules enumerated by TLC from the KeepAlive specification (gaps of 0.2/0.4/0.8 K between PINGREQ or PUBLISH packets, then "
+    v.cov["rule"] = ("client schedules enumerated by TLC from the KeepAlive specification (gaps of 0.2/0.4/0.5/0.9 K between PINGREQ or PUBLISH packets, regular and irregular, then "
                      "2.6 K of silence), run in real time against a real broker with KeepAlive 1 s (thorough: also 2 s): while active never closed and every "
                      "PINGREQ answered; after the silence closed not earlier than K after the last packet, and the will at the witness. distinct_nontrivial = schedules run")
     v.cov["exhaustive"] = False
-    v.assumptions += ["real time with margins: 'active' gaps are at most 0.8 K (deadline 1.2 K), 'silent' is judged at 2.6 K; a loaded machine could in principle delay a packet by more than 0.4 K",
+    v.assumptions += ["real time with margins: 'active' gaps are at most 0.9 K (deadline 1.2 K), 'silent' is judged at 2.6 K; a loaded machine could in principle delay a packet by more than 0.4 K",
                       "quick runs the fixed patterns plus a seeded sample of the enumerated schedules"]
     return v.finish()
 
@@ -802,6 +804,7 @@ def c19(tier):
 FAULTS_CFG = """SPECIFICATION Spec
 CONSTANTS
  Cross = %s
+ SelfSub = %s
  WithAttacker = %s
  MaxSteps = %d
 INVARIANTS TypeOK EmitFull
@@ -822,9 +825,9 @@ PROPERTIES TornDown CloseReturns
 
 
 def faults_run(v, pid, plan):
-    for cross, att, d in plan:
-        name = "faults-%s-%s-%d" % (cross, att, d)
-        r = core.cached_tlc(name, "Faults", FAULTS_CFG % (cross, att, d), workers=1, timeout=600)
+    for cross, selfsub, att, d in plan:
+        name = "faults-%s-%s-%s-%d" % (cross, selfsub, att, d)
+        r = core.cached_tlc(name, "Faults", FAULTS_CFG % (cross, selfsub, att, d), workers=1, timeout=600)
         v.tlc(name, r)
         scen = core.behaviours(r.lines)
         results = core.run_sharded(["faults"], scen, timeout=2400, died_is_result=True)
@@ -865,7 +868,8 @@ def c16(tier):
         cfg = TEARDOWN_CFG % (maxsend, subs, wills)
         r = core.cached_tlc(name, "MCTeardown", cfg, workers=8, timeout=2400)
         v.tlc(name, r)
-    faults_run(v, "C16", [("FALSE", "FALSE", 3 if not thorough else 4), ("TRUE", "FALSE", 3 if not thorough else 4)])
+    faults_run(v, "C16", [("FALSE", "FALSE", "FALSE", 3 if not thorough else 4), ("TRUE", "FALSE", "FALSE", 3 if not thorough else 4),
+                          ("FALSE", "TRUE", "FALSE", 4 if not thorough else 5)])
     v.cov["rule"] = ("TLC: leads-to 'ended ~> torn down' and 'Server.Close ~> returned' under fairness on the Teardown specification (goroutine life cycles, ring capacities, "
                      "fan-out that blocks on a full open ring, will fan-out inside teardown). Replay: every fault sequence of bounded length enumerated by TLC from Faults (bursts of 6 KB "
                      "publishes into 16 KiB rings, peers that stop reading, DISCONNECT / cut / malformed / oversized packet, Server.Close, both orders of ending) on a real broker: "
@@ -880,7 +884,7 @@ def c16(tier):
 def c05(tier):
     v = Verdict("C05", tier, level="fault_enumeration")
     thorough = tier == "thorough"
-    faults_run(v, "C05", [("FALSE", "TRUE", 2 if not thorough else 3), ("TRUE", "TRUE", 2 if not thorough else 3)])
+    faults_run(v, "C05", [("FALSE", "FALSE", "TRUE", 2 if not thorough else 3), ("TRUE", "FALSE", "TRUE", 2 if not thorough else 3)])
     # the gated race of a delivery with the teardown of its target (yield point wm.checked)
     p = core.run_harness(["race", "-n", "10" if not thorough else "100"], timeout=600)
     if p.returncode != 0:
